@@ -70,6 +70,7 @@ def _run_job(args):
     E = Engine(regions=regions_for(known, label), time_budget=budget)
     E.xcheck_budget = int(os.environ.get("VERIF_XCHECK", "0") or 0)
     del core.FP_LOG[:]
+    del core.FP_SHAPES[:]
 
     def on_alarm(sig, frm):
         raise Budget("hard wall-clock limit")
@@ -120,6 +121,7 @@ def _run_job(args):
     res["stats"] = E.stats()
     res["wall_s"] = round(time.time() - t0, 2)
     res["fp_log"] = sorted(set(core.FP_LOG), key=repr)
+    res["fp_shapes"] = sorted(set(core.FP_SHAPES), key=repr)
     return res
 
 
